@@ -33,6 +33,7 @@ S1_EXCEPTIONS = {
 S2_CHAIN_EXCEPTIONS = {
     ('SchindelhauerTMCG::TMCG_MaskCard', 'cs.r'): 'dimensions of the card secret equal those of the card: checked by the verifier before mixing (fix 13def68) and asserted here',
     ('SchindelhauerTMCG::TMCG_MaskCard', 'cs.r[*]'): 'same',
+    ('SchindelhauerTMCG::TMCG_MaskCard', 'cs.b'): 'same',
     ('SchindelhauerTMCG::TMCG_MaskCard', 'cs.b[*]'): 'same',
     ('SchindelhauerTMCG::TMCG_MixStack', 's'): 'ss[i].first < ss.size() is guaranteed by TMCG_StackSecret::import (C02 R02a) and ss.size() == s.size() by the '
                                                'verifier before the call (S1 guard at the call site)',
